@@ -428,6 +428,11 @@ func c03Verdict(c *c03Case, p *Proc, st *Stats) *Violation {
 			st.Count("outcome.help_of_an_application_declaring_its_own_h")
 			return nil
 		}
+		if p.Err == nil && actions == 0 && c.Version && len(c.Argv) > 1 && (c.Argv[1] == "-V" || c.Argv[1] == "--version") {
+			// (a mutated token can spell the declared version flag in first position: a version request, C14's subject)
+			st.Count("outcome.version_request")
+			return nil
+		}
 		if p.Err == nil {
 			if actions != 1 {
 				return &Violation{Clause: "accepted-action-once", Detail: fmt.Sprintf("Run returned nil but the Action ran %d times", actions), Expected: "exactly once", Observed: observed}
